@@ -8,6 +8,7 @@ import (
 	"os"
 	"path/filepath"
 	"strconv"
+	"strings"
 	"testing"
 	"time"
 
@@ -148,7 +149,12 @@ func worker(t *testing.T) {
 		if res.V != nil {
 			nviol++
 			sig := res.V.Sig()
-			min, mres, tries := shrink(t, e, s, sig, shrinkBudget)
+			budget := shrinkBudget
+			if strings.Contains(","+os.Getenv("VERIF_KNOWN")+",", ","+sig+",") {
+				budget = 0 // a listed known finding: report it, do not spend time minimising it again
+				nviol--
+			}
+			min, mres, tries := shrink(t, e, s, sig, budget)
 			if mres == nil || mres.V == nil {
 				min, mres = s, res
 			}
